@@ -502,5 +502,63 @@ def rule_tcp_writer(ctx):
     r(ctx)
 
 
+
+def rule_every_dequeued_frame_is_written(ctx):
+    """C05.i  What the sender takes from the queue it writes.  _get_next_frame_to_send hands out the next frame *or the
+    next fragment* of the source at the head of the queue; the fragments of one frame are separate hand-outs, and only
+    the last one carries the sent-future.  A sender that skips a hand-out on some condition of the frame (its future
+    was cancelled, say) writes a fragment sequence that starts and never ends - the peer keeps the partial frame and
+    every later frame of the stream is glued to it.  In `_sender`, inside the `async with
+    self._get_next_frame_to_send(...) as frame` block, `await transport.send_frame(frame)` is reached unconditionally:
+    nothing before it can leave the block, and it is not nested in a test (a `try` around it is fine)."""
+    rep = ctx.report
+    s = ctx.repo.func('rsocket.rsocket_base:RSocketBase._sender')
+    if s is None:
+        raise AnalysisError('C05.i: RSocketBase._sender vanished')
+    blocks = []
+    for n in walk_local(s.node):
+        if isinstance(n, ast.AsyncWith):
+            for it in n.items:
+                c = it.context_expr
+                if isinstance(c, ast.Call) and isinstance(c.func, ast.Attribute) and \
+                        c.func.attr == '_get_next_frame_to_send' and isinstance(it.optional_vars, ast.Name):
+                    blocks.append((n, it.optional_vars.id))
+    if len(blocks) != 1:
+        raise AnalysisError('C05.i: %d hand-out blocks in _sender' % len(blocks))
+    blk, var = blocks[0]
+
+    def is_send(x):
+        return isinstance(x, ast.Call) and isinstance(x.func, ast.Attribute) and x.func.attr == 'send_frame' and \
+            len(x.args) == 1 and isinstance(x.args[0], ast.Name) and x.args[0].id == var
+
+    def leaves(st):
+        return [x for x in ast.walk(st) if isinstance(x, (ast.Continue, ast.Break, ast.Return, ast.Raise))]
+
+    def reach(stmts):
+        """-> (found, why-not)"""
+        for st in stmts:
+            has = any(is_send(x) for x in ast.walk(st))
+            if not has:
+                out = leaves(st)
+                if out:
+                    return False, ('line %d: the block can be left before the write (%s): the hand-out - possibly one '
+                                   'fragment of a frame whose other fragments are written - is dropped'
+                                   % (out[0].lineno, type(out[0]).__name__.lower()))
+                continue
+            if isinstance(st, ast.Expr) and isinstance(st.value, ast.Await) and is_send(st.value.value):
+                return True, ''
+            if isinstance(st, ast.Try):
+                return reach(st.body)
+            if isinstance(st, (ast.With, ast.AsyncWith)):
+                return reach(st.body)
+            return False, 'line %d: the write is conditional (%s)' % (st.lineno, type(st).__name__)
+        return False, 'the hand-out is never passed to transport.send_frame'
+
+    ok, why = reach(blk.body)
+    rep.add('C05.i', 'RSocketBase._sender / every hand-out of the queue is written', s, ok,
+            why or 'await transport.send_frame(%s) is reached unconditionally inside the hand-out block' % var)
+
+
+
 RULES = [('C05.a', rule_a), ('C05.b', rule_b), ('C05.c', rule_c), ('C05.e', rule_e), ('C05.f', rule_f),
-         ('C01.c', rule_g), ('C05.g', rule_single_writer), ('C05.h', rule_builders_fresh), ('C02.e', rule_tcp_writer)]
+         ('C01.c', rule_g), ('C05.g', rule_single_writer), ('C05.h', rule_builders_fresh), ('C02.e', rule_tcp_writer), ('C05.i', rule_every_dequeued_frame_is_written)]
